@@ -202,7 +202,7 @@ fn run(ctx: &Ctx, rep: &mut Report) {
 		}
 	}
 	// ---- random values
-	let nrand = ctx.budget(1_000_000, 12_000_000);
+	let nrand = ctx.budget(1_000_000, 60_000_000);
 	for _ in 0..nrand {
 		let bits = rng.range(1, 128) as u32;
 		let x = rng.next_u128() >> (128 - bits);
@@ -301,7 +301,7 @@ fn run(ctx: &Ctx, rep: &mut Report) {
 		rep.add(if thorough { "strings_mode3_exhaustive" } else { "strings_mode3_strided" }, n);
 	}
 	// ---- random strings and canonical-with-suffix / truncated-canonical strings
-	let nrand = ctx.budget(1_000_000, 10_000_000);
+	let nrand = ctx.budget(1_000_000, 50_000_000);
 	for i in 0..nrand {
 		buf.clear();
 		match i % 3 {
